@@ -23,6 +23,7 @@ def ctx_stores(fn):
 def run(F, R, ctx):
     _run(F, R, ctx)
     park_loop_rule(F, R)
+    world_stop_wait_rule(F, R)
 
 
 def _run(F, R, ctx):
@@ -209,3 +210,30 @@ def park_loop_rule(F, R):
                        "is still set and executes instructions during a stop-the-world operation" % (fn.short(), b["line"]),
                        fn.loc(b["line"]), sample=True)
     R.floor("C15.p", "park sites", n, 3)
+
+
+def world_stop_wait_rule(F, R):
+    R.rule("C15.w", "a global definition / assignment reaches every thread: SteelThread::with_locked_env hands the global table "
+                    "to the other threads (before and after the update) only through Synchronizer functions whose per-thread "
+                    "wait cannot give up — the broadcaster it calls (a Synchronizer method dereferencing the published "
+                    "*mut SteelThread) neither takes a timeout nor reads a clock (Instant::elapsed / duration_since) on its "
+                    "wait loop. A thread skipped after a timeout keeps the old table: it never sees the assignment, and its "
+                    "next own definition publishes the stale table to everyone (lost update)")
+    wle = F.one(r"^steel::steel_vm::vm::\{impl SteelThread\}::with_locked_env$")
+    n = 0
+    for i, cb in wle.calls():
+        c = cb["callee"]
+        g = F.fns.get(c)
+        if g is None or not re.search(r"\{impl Synchronizer\}::", c):
+            continue
+        if not any(e[1] == "SteelThread" for _, _, e in g.events("rawderef")):
+            continue
+        n += 1
+        clock = [lib.short_name(x["callee"]) for _, x in lib.deep_calls(F, g, depth=2)
+                 if re.search(r"Instant\}?::(elapsed|duration_since|checked_duration_since|saturating_duration_since)$", x["callee"])]
+        R.inst("C15.w", "with_locked_env / broadcast #%d through %s waits without a deadline" % (n, lib.split_path(c)[-1]), not clock,
+               "SteelThread::with_locked_env hands the global table to the other threads through %s (line %s), whose wait reads "
+               "a clock (%s): a thread that is not at a safepoint when the deadline passes is skipped, keeps the old global "
+               "table and later overwrites everyone's with it" % (lib.short_name(c), cb["line"], ", ".join(sorted(set(clock)))),
+               wle.loc(cb["line"]), sample=True)
+    R.floor("C15.w", "broadcasts of the global table in with_locked_env", n, 2)
